@@ -40,6 +40,7 @@ def strategy(tier):
         assume(len(fv) >= 1)
         k = draw(st.sampled_from([1, 1, 2, 3]))
         prows = {n: [[draw(specs.num(0, 1)) for _ in range(specs.PVARS[n])] for _ in range(k)] for n in fv}
+        assume(specs.ratio_ok_rows(E, prows))
         nfix = draw(st.integers(1, len(fv))) if len(fv) == 1 or draw(st.integers(0, 3)) == 0 else \
             draw(st.integers(1, len(fv) - 1))
         S = draw(st.permutations(fv))[:nfix]
